@@ -16,6 +16,15 @@ import (
 var c09Points = []string{"a", "b", "z", "A", "Z", "m", "0", "1", "9", "-", "_", "x", "n", "e", "X", "N", "é", "É", "ü", "ß", "ẞ", "☃", "日", "本", "­", "‍", "‌",
 	"ａ", "Ａ", "Ⅷ", "≠", "≮", "≯", "İ", "K", "́", "א", "ب", "。", "．", "｡", "!", "$", "&", "'", "(", ")", "*", "+", ",", ";", "=", "~", "\U0001F600", "ǆ", "Ǆ"}
 
+// option configurations that do not relax host parsing
+var c09OptCfgs []*Cfg
+
+func init() {
+	for _, n := range []string{"acceptInvalid", "acceptInvalid+singlePct", "report", "collapse+skipDrive", "skipTrailSlash+skipEq", "specialAdd+acceptInvalid"} {
+		c09OptCfgs = append(c09OptCfgs, cfgFromDesc(n))
+	}
+}
+
 func (r *Rng) c09Host() []string {
 	nl := 1 + r.Intn(3)
 	var cps []string
@@ -137,6 +146,34 @@ func init() {
 					o1 := c.cmpParse(d, defaultCfg, nil, mk(alt), allButVerrs, true, "domain-variant", i)
 					if o0.Kind != o1.Kind || o0.Kind == "U" && (o0.Fields[fHostname] != o1.Fields[fHostname] || o0.Fields[fHref] != o1.Fields[fHref]) {
 						c.Report(Finding{Class: "violation", What: fmt.Sprintf("host spelling changes the result: %q -> %s but %q -> %s", mk(plain), o0.String(), mk(alt), o1.String()), Case: cs, Host: o0.Fields0(fHostname)})
+					}
+				}
+				// the same under parser options that do not relax host parsing (accept-invalid-code-points concerns path, query and
+				// fragment; the others do not touch hosts): the spellings still agree, also for a host that decodes to bytes that are
+				// not valid UTF-8 (written raw or escaped), and the output is as clean
+				if i%3 == 0 {
+					oc := c09OptCfgs[(i/3)%len(c09OptCfgs)]
+					cps2 := append([]string(nil), cps...)
+					if r.Chance(1, 2) {
+						k := r.Intn(len(cps2) + 1)
+						cps2 = append(cps2[:k], append([]string{r.Pick([]string{"\xff", "\x80", "\xc3", "\xe2\x82", "\xf0\x9f"})}, cps2[k:]...)...)
+					}
+					p2 := strings.Join(cps2, "")
+					q0 := c.cmpParse(d, oc, nil, mk(p2), allButVerrs, true, "domain:"+oc.Desc, i)
+					for v := 0; v < 3; v++ {
+						alt := r.spell(cps2, []int{0, 5, 10}[v], true)
+						q1 := c.cmpParse(d, oc, nil, mk(alt), allButVerrs, true, "domain-variant:"+oc.Desc, i)
+						if q0.Kind != q1.Kind || q0.Kind == "U" && (q0.Fields[fHostname] != q1.Fields[fHostname] || q0.Fields[fHref] != q1.Fields[fHref]) {
+							c.Report(Finding{Class: "violation", What: fmt.Sprintf("under options %s the host spelling changes the result: %q -> %s but %q -> %s", oc.Desc, mk(p2), q0.String(), mk(alt), q1.String()),
+								Case: Case{Kind: "parse", Cfg: oc.Desc, Input: mk(alt), Family: "domain-variant:" + oc.Desc, Index: i}, Host: q0.Fields0(fHostname)})
+							break
+						}
+					}
+					if q0.Kind == "U" {
+						if h := q0.Fields[fHostname]; !strings.HasPrefix(h, "[") && (!isASCII(h) || h != asciiLower(h) || strings.ContainsAny(h, forbiddenDomain)) {
+							c.Report(Finding{Class: "violation", What: fmt.Sprintf("under options %s the serialized domain host %q is not ASCII lower-case free of forbidden domain code points", oc.Desc, h),
+								Case: Case{Kind: "parse", Cfg: oc.Desc, Input: mk(p2), Family: "domain:" + oc.Desc, Index: i}})
+						}
 					}
 				}
 				if o0.Kind == "U" {
@@ -479,6 +516,15 @@ func init() {
 					ref = r.absURL()
 				default:
 					ref = r.relRef()
+				}
+				if i%16 == 7 {
+					// what looks like a scheme but is none: one letter of a scheme replaced by a Unicode character that case mapping or
+					// width folding sends to it (Kelvin sign, dotted capital I, long s, fullwidth letters, digits of other scripts)
+					sch := r.Pick([]string{"backup", "images", "disk", "link", "kiosk", "news", "sip", "http", "file", "ws", "s3", "a1", "skype"})
+					pos := r.Intn(len(sch))
+					if cf := confusables(sch[pos]); len(cf) > 0 {
+						ref = sch[:pos] + r.Pick(cf) + sch[pos+1:] + ":" + r.Pick([]string{"notes", "2024/a.png", "//h/p", "/abs", "", "x?q#f"})
+					}
 				}
 				cs := Case{Kind: "ref", Base: &b, Input: ref, Family: "resolution", Index: i}
 				o1 := c.cmpParse(d, defaultCfg, &b, ref, allFields, true, "ParseRef", i)
